@@ -298,11 +298,15 @@ def r1(ctx, new):
                 idxs = [y for y in walk(src) if y.tag == 'index']
                 pure = bool(conv) and bool(idxs) and not ctx.adapters(src)
                 det = short(src, 100)
-        if not (pure or (ok_shape and len(wr) == 1 and le and idx_ok and rng_ok)):
-            # any other way of putting the five bytes together (a literal with some bytes stored later, a copy into label[1..5]):
-            # evaluate the label byte by byte
-            cells = label_cells(ctx, lab)
-            if cells is not None and len(cells) == 5 and cells[0][0] == 'lit' and all(c[0] != 'lit' for c in cells[1:]):
+        # the label evaluated byte by byte decides whenever it can be evaluated (a literal with bytes stored later at constant positions,
+        # 4-byte writes / copies into a constant sub-range): the recognisers above only name the spelling
+        cells = label_cells(ctx, lab)
+        if cells is not None:
+            pure, ok_shape = False, False
+            tag = cells[0][1] if cells and cells[0][0] == 'lit' else None
+            tags[target or 'chain%d' % n] = tag
+            det = 'bytes %s' % [c[:3] if c[0] != 'lit' else c for c in cells]
+            if len(cells) == 5 and cells[0][0] == 'lit' and all(c[0] != 'lit' for c in cells[1:]):
                 srcs = {c[0] for c in cells[1:]}
                 if len(srcs) == 1 and [c[1] for c in cells[1:]] == [0, 1, 2, 3] and all(c[2] == 4 for c in cells[1:]):
                     sterm = cells[1][3]
